@@ -491,6 +491,57 @@ var switchKinds = []skKind{
 var leafKinds = []skKind{
 	{name: "if-empty"}, {name: "for-empty"}, {name: "case-empty"}, {name: "panic"}, {name: "panic-if"},
 	{name: "simple2"},
+	// calls of functions whose bodies contain loops / branches of their own (loop flags, labels and
+	// helper state of a callee must not interfere with the caller's constructs)
+	{name: "call-lf-three"}, {name: "call-lf-cond"}, {name: "call-lf-bare"}, {name: "call-lf-nested"}, {name: "call-lf-branch"},
+}
+
+// skLoopFuncs are the callee definitions used by the call-lf-* kinds.
+func skLoopFunc(kind string) Stmt {
+	k := Var{"k"}
+	show := func(tag string) Stmt { return Print{Args: []Expr{StrLit{V: tag}, k}} }
+	inc := IncDec{Name: "k", Inc: true}
+	def := Define{Names: []string{"k"}, Form: DefShort, Vals: []Expr{IntLit{0}}}
+	lt2 := Binary{Op: "<", L: k, R: IntLit{2}}
+	switch kind {
+	case "call-lf-three":
+		return FuncDef{Name: "lfthree", Body: []Stmt{For{Init: def, Cond: lt2, Post: inc, Body: []Stmt{show("lf3")}}}}
+	case "call-lf-cond":
+		return FuncDef{Name: "lfcond", Body: []Stmt{def, For{Cond: lt2, Body: []Stmt{show("lfc"), inc}}}}
+	case "call-lf-bare":
+		return FuncDef{Name: "lfbare", Body: []Stmt{def, For{Body: []Stmt{If{Cond: Binary{Op: ">=", L: k, R: IntLit{2}}, Then: []Stmt{Break{}}}, show("lfb"), inc}}}}
+	case "call-lf-nested":
+		return FuncDef{Name: "lfnested", Body: []Stmt{For{Init: def, Cond: lt2, Post: inc, Body: []Stmt{
+			Define{Names: []string{"m"}, Form: DefShort, Vals: []Expr{IntLit{0}}},
+			For{Cond: Binary{Op: "<", L: Var{"m"}, R: IntLit{2}}, Body: []Stmt{IncDec{Name: "m", Inc: true}, If{Cond: Binary{Op: "==", L: Var{"m"}, R: IntLit{1}}, Then: []Stmt{Continue{}}}, Print{Args: []Expr{StrLit{V: "lfn"}, k, Var{"m"}}}}}}}}}
+	case "call-lf-branch":
+		return FuncDef{Name: "lfbranch", Params: []Param{{"k", TInt}}, Body: []Stmt{If{Cond: Binary{Op: "==", L: k, R: IntLit{0}}, Then: []Stmt{show("lfi0")}, Elifs: []ElseIf{{Cond: Binary{Op: "==", L: k, R: IntLit{1}}, Body: []Stmt{show("lfi1")}}}, Else: []Stmt{show("lfie")}, HasElse: true},
+			Switch{Tag: k, Cases: []Case{{Val: IntLit{1}, Body: []Stmt{show("lfs1")}}, {Default: true, Body: []Stmt{show("lfsd")}}}}}}
+	}
+	return nil
+}
+
+func skUsedLoopFuncs(seq []skNode, into map[string]bool) {
+	for _, n := range seq {
+		if strings.HasPrefix(n.kind.name, "call-lf-") {
+			into[n.kind.name] = true
+		}
+		for _, kid := range n.kids {
+			skUsedLoopFuncs(kid, into)
+		}
+	}
+}
+
+func skLoopFuncDefs(seq []skNode) []Stmt {
+	used := map[string]bool{}
+	skUsedLoopFuncs(seq, used)
+	var out []Stmt
+	for _, k := range []string{"call-lf-three", "call-lf-cond", "call-lf-bare", "call-lf-nested", "call-lf-branch"} {
+		if used[k] {
+			out = append(out, skLoopFunc(k))
+		}
+	}
+	return out
 }
 
 var forForms = []string{"three", "noinit", "nopost", "nocond", "semis", "cond", "bare", "down"}
@@ -515,7 +566,7 @@ func fullKinds() []skKind {
 }
 
 func controlKinds() []skKind {
-	ks := []skKind{ifKinds[0], ifKinds[3], switchKinds[2]}
+	ks := []skKind{ifKinds[0], ifKinds[3], switchKinds[2], {name: "call-lf-cond"}, {name: "call-lf-three"}}
 	ks = append(ks, forKinds([]string{"three"}, []string{"", "break-start", "continue-end"})...)
 	ks = append(ks, forKinds([]string{"cond"}, []string{"", "continue-start"})...)
 	ks = append(ks, forKinds([]string{"bare"}, []string{"", "break-end"})...)
@@ -738,6 +789,10 @@ func (b *skBuilder) nodeInner(n skNode, ctrs []string, inLoop bool) []Stmt {
 		return []Stmt{If{Cond: eqc(s, 1), Then: []Stmt{Panic{X: StrLit{V: fmt.Sprintf("p%d", b.nextMarker)}}}}}
 	case k.name == "simple2":
 		return []Stmt{b.simple(), b.simple()}
+	case k.name == "call-lf-branch":
+		return []Stmt{ExprStmt{X: Call{Fn: "lfbranch", Args: []Expr{s}}}}
+	case strings.HasPrefix(k.name, "call-lf-"):
+		return []Stmt{ExprStmt{X: Call{Fn: "lf" + strings.TrimPrefix(k.name, "call-lf-")}}}
 	case k.loop:
 		return b.loop(n, ctrs)
 	}
@@ -841,11 +896,12 @@ func (b *skBuilder) loop(n skNode, ctrs []string) []Stmt {
 
 func skProgram(seq []skNode) *Prog {
 	b := &skBuilder{}
-	st := []Stmt{
+	st := skLoopFuncDefs(seq)
+	st = append(st, []Stmt{
 		Define{Names: []string{"x"}, Form: DefShort, Vals: []Expr{IntLit{0}}},
 		Define{Names: []string{"t"}, Form: DefShort, Vals: []Expr{BoolLit{false}}},
 		Define{Names: []string{"w"}, Form: DefShort, Vals: []Expr{StrLit{V: ""}}},
-	}
+	}...)
 	for _, n := range seq {
 		st = append(st, b.node(n, nil, false)...)
 		st = append(st, b.marker(nil))
